@@ -236,6 +236,9 @@ func runCase(c tcase) (fails [][2]string, okUpdates int) {
 		fails = append(fails, [2]string{k, m})
 	}
 	res := verifrt.RunOnce(nil, false, func() {
+		// the clock stands still for the whole history (virtual time only moves when a timer fires): successive
+		// writes carry the same change time, which is no reason for any of them to go missing from a stream
+		verifrt.VirtualClock()
 		server := se.New()
 		services, triples := discover(server)
 		var t *triple
